@@ -842,12 +842,18 @@ impl Resolver {
             EK::Function { name, params: parser_params, ret, body, pure } => {
                 let ss = self.stack.len();
                 let name = name.clone();
-                let mut params = Vec::new();
-                for (n, t) in parser_params.iter() {
-                    let var = self.push_var(n, VarKind::Const);
-                    params.push((n.name.clone(), var, n.span, self.ty(t)?));
+                // The types of the signature are resolved before the parameters are in scope -
+                // a parameter doesn't shadow a type.
+                let mut param_types = Vec::new();
+                for (_, t) in parser_params.iter() {
+                    param_types.push(self.ty(t)?);
                 }
                 let ret = self.ty(ret)?;
+                let mut params = Vec::new();
+                for ((n, _), ty) in parser_params.iter().zip(param_types.into_iter()) {
+                    let var = self.push_var(n, VarKind::Const);
+                    params.push((n.name.clone(), var, n.span, ty));
+                }
                 let body = self.block(body)?;
                 self.stack.truncate(ss);
                 E::Function { name, params, ret, body, pure: *pure, span }
@@ -927,6 +933,8 @@ impl Resolver {
             }),
 
             SK::Definition { ident, kind, ty, value } => {
+                // The annotation is resolved first - it cannot refer to what it annotates.
+                let ty = self.ty(ty)?;
                 let (value, var) = if self.stack.is_empty() {
                     // Outer statement - it's a global so just evaluate the value and push a dummy
                     // value on the stack.
@@ -956,7 +964,7 @@ impl Resolver {
                     name: ident.name.clone(),
                     var,
                     kind: *kind,
-                    ty: self.ty(ty)?,
+                    ty,
                     value,
                 })
             }
